@@ -8,7 +8,7 @@ From hls Require Import Base Float Lex Kinds Types Tags Line Keys Media.
 From hls.Spec Require Import KeySpec.
 From hls Require Import Master.
 From hls.Generated Require Import Tables.
-From hls.Proofs Require Import KeysProof C06 C11 C03 TextLines AttrText TagText TagTextSegment TagTextDateRange MediaText C03Items ParsedBuilt MediaParsedWf.
+From hls.Proofs Require Import KeysProof C06 C11 C03 TextLines AttrText TagText TagTextSegment TagTextDateRange MediaText C03Items ParsedBuilt MediaParsedWf FloatAll.
 
 (* for key lists as consecutive segments of a parse have them (each the marker alone or keys of
    pairwise different formats; keys never vanish without METHOD=NONE), the EXT-X-KEY events the
@@ -142,6 +142,16 @@ Theorem C03_parsed_wf : forall s p, parse_media s = Ok p -> media_domain p = tru
 Proof. exact parsed_media_wf. Qed.
 Check C03_parsed_wf : forall s p, parse_media s = Ok p -> media_domain p = true -> wf_media p = true.
 Print Assumptions C03_parsed_wf.
+
+(* the float / duration parts of `media_domain` are not restrictions on what the reader can produce: every duration below
+   2^20 s survives the writer and the reader with nanosecond precision, and so does every float the reader accepts (TIME-OFFSET,
+   client attributes) — proved for all values, see C18.v *)
+Theorem C03_float_hypotheses : (forall ns : N, ns < 1048576 * 1000000000 -> dur_rt ns = true)
+  /\ (forall s x, parse_float s = Ok x -> float_rt x = true /\ value_domain (VFloat x) = true).
+Proof. exact (conj dur_rt_small (fun s x H => proj2 (parsed_float_roundtrip s x H))). Qed.
+Check C03_float_hypotheses : (forall ns : N, ns < 1048576 * 1000000000 -> dur_rt ns = true)
+  /\ (forall s x, parse_float s = Ok x -> float_rt x = true /\ value_domain (VFloat x) = true).
+Print Assumptions C03_float_hypotheses.
 
 (* non-vacuity at text level: a parsed playlist with two key formats, a key rotation, METHOD=NONE,
    a map, byte ranges, a date range and fractional durations meets every hypothesis *)
